@@ -351,6 +351,8 @@ end do
 b1: block
 integer :: t
 t = n
+t = t + 1
+print *, t
 critical
 n = t + 1
 end critical
